@@ -52,6 +52,7 @@ func (e *Engine) VerifyFunc(fn *ssa.Function, fc *FuncContract) (res *FuncResult
 	st.alloc = ctx.Fresh("alloc0", "Int")
 	ctx.Fact(fmt.Sprintf("(>= %s 1)", st.alloc))
 	f.alloc0 = st.alloc
+	st.heaps[sinceUnlockKey] = st.alloc
 	var args []string
 	for i, p := range fn.Params {
 		a := ctx.Fresh("p_"+p.Name(), ctx.sortOf(p.Type()))
